@@ -315,11 +315,13 @@ Theorem ssm_column_star : forall size cond bounds nsv (src src' : list ST) j, (j
   nth j (SurfEIT.SSM o ST st_v NV DV K size cond bounds nsv src) [] = nth j (SurfEIT.SSM o ST st_v NV DV K size cond bounds nsv src') [].
 Proof. exact (SurfEITProofs.ssm_column_star o ST st_v NV DV K). Qed.
 
-(* only vertex rows and triangle rows of the meshes bounding the source's domain are written *)
+(* only vertex rows of the meshes bounding the source's domain and triangle rows of those that are not current barriers are
+   written (the barrier guard is the repaired code: before the fix SurfSourceMat wrote rows beyond the matrix) *)
 Theorem ssm_rows : forall cond bounds nsv (src : list ST) w,
   In w (SurfEIT.ssm_writes o ST st_v NV DV K cond bounds nsv src) ->
   exists b om, In b bounds /\ In om (SurfEIT.bb_meshes b) /\
-    (In (SurfEIT.wrow w) (SurfEIT.bm_verts (SurfEIT.bo_mesh om)) \/ In (SurfEIT.wrow w) (SurfEIT.bm_tris (SurfEIT.bo_mesh om))).
+    (In (SurfEIT.wrow w) (SurfEIT.bm_verts (SurfEIT.bo_mesh om)) \/
+     (SurfEIT.bm_barrier (SurfEIT.bo_mesh om) = false /\ In (SurfEIT.wrow w) (SurfEIT.bm_tris (SurfEIT.bo_mesh om)))).
 Proof. exact (SurfEITProofs.ssm_rows o ST st_v NV DV K). Qed.
 End SurfEITProps.
 Print Assumptions run_writes_col.
